@@ -100,6 +100,9 @@ def list_join_clause(segment: BaseSegment) -> list[BaseSegment]:
                     return []
         # otherwise, recursively find join_clause
         return list(segment.recursive_crawl("join_clause"))
+    elif segment.type == "from_expression":
+        # one item of a SQL89 style comma join, which can mix with explicit JOINs
+        return segment.get_children("join_clause")
     return []
 
 
